@@ -1,0 +1,15 @@
+//go:build verif
+
+package minersc
+
+import (
+	"0chain.net/chaincore/block"
+	cstate "0chain.net/chaincore/chain/state"
+)
+
+// Thin exported wrapper for the /verif engines (no logic).
+
+// VerifGetRewardedMiner returns the miner node payFees credits for this block (nil: none).
+func VerifGetRewardedMiner(bk *block.Block, balances cstate.CommonStateContextI) (*MinerNode, error) {
+	return getRewardedMiner(bk, balances)
+}
